@@ -221,6 +221,18 @@ def gen_state(rng, sp):
         q = list(sp["q_on"])
     else:
         q = dyvec(rng, n, -1.5, 1.5, 8)
+        if sp["family"] == "riem-softabs":
+            # keep the Hessian's eigenvalues away from 0 (softabs(0) = 0/tanh(0) is NaN in the implementation:
+            # reported) and from each other (divided differences)
+            for _ in range(200):
+                ev = np.linalg.eigvalsh(np.array(sp["lB"]) + 3 * sp["lk"] * np.diag(np.array(q) ** 2))
+                if np.min(np.abs(ev)) > 0.2 and (n == 1 or np.min(np.diff(ev)) > 0.2):
+                    break
+                q = dyvec(rng, n, -1.5, 1.5, 8)
+            else:
+                # shift and spread the spectrum, then retry
+                sp["lB"] = (np.array(sp["lB"]) + np.diag([0.25 + 0.5 * i for i in range(n)])).tolist()
+                return gen_state(rng, sp)
     return q, dyvec(rng, n, -2, 2, 8)
 
 
@@ -527,7 +539,7 @@ def run(ctx: common.Ctx):
         "finite differences: Richardson-extrapolated central differences, h = 1e-3, tolerance 2e-7 relative",
     ]
     cases = []
-    per = ctx.n(40, 400)
+    per = ctx.n(40, 1200)
     for fam in FAMILIES:
         for k in range(per):
             mk = None
@@ -544,7 +556,7 @@ def run(ctx: common.Ctx):
         except Exception as e:  # noqa: BLE001
             ctx.violation(f"{sp['family']} foreign exception {type(e).__name__}", f"{sp['family']}: {type(e).__name__}: {e}", case)
             continue
-        ctx.case({"family": sp["family"], "metric": sp.get("metric", {}).get("kind"), "conv": sp["conv"], "n": sp["n"]}, nontrivial=True)
+        ctx.case({"family": sp["family"], "metric": sp.get("metric", {}).get("kind"), "conv": sp["conv"], "n": sp["n"], "q": q, "p": p}, nontrivial=True)
         ctx.count(f"{sp['family']}" + (f":{sp['metric']['kind']}" if "metric" in sp else ""))
         ctx.count("conv:" + "".join(map(str, sp["conv"])))
         for sig, text in bad:
@@ -590,8 +602,9 @@ LEVEL_TEXT = (
     "formula det(A+eps B) = det A (1 + eps tr(A⁻¹B)) proved in dual numbers (gram_term_derivative, "
     "denseConstrained_derivative, gaussianDenseConstrained_derivative) — and for the generic RiemannianMetricSystem "
     "(riemannian_derivative: dh1_dpos = grad l + ½ vjp(grad_log_abs_det), dh2_dpos = ½ vjp(grad_quadratic_form_inv(p)), "
-    "dh2_dmom = M⁻¹p) given the per-class differential facts, which are proved for the dense, diagonal and scaled-identity "
-    "metric classes (denseClass_/diagClass_/scalarClass_differential). Tied to the code by exact comparison of all eight "
+    "dh2_dmom = M⁻¹p) given the per-class differential facts, which are proved for the dense, diagonal, scaled-identity "
+    "and (lower-triangular) Cholesky-factored metric classes (denseClass_/diagClass_/scalarClass_/cholClass_differential). "
+    "Tied to the code by exact comparison of all eight "
     "methods of real systems of every class with the model over Q and by finite-difference oracles on the real code."
 )
 LEVEL_NOTE = (
@@ -600,8 +613,8 @@ LEVEL_NOTE = (
     "Metric / Gram / Cholesky-factor inverses are checked data. Hypotheses of the derivative theorems are what the "
     "documentation asks of the user: supplied gradient / Jacobian / MHP / VJP functions are the derivatives of the "
     "supplied functions, the metric is symmetric. Not proved in Lean (covered by exact correspondence and the "
-    "finite-difference oracle only): the per-class differential facts of the Cholesky-factored class and of the SoftAbs "
-    "class (eigendecomposition, coth). The return-convention handling (tuple with auxiliary values) is exercised by the "
+    "finite-difference oracle only): the per-class differential facts of the SoftAbs class (eigendecomposition, coth; its "
+    "Hessians are generated with eigenvalues away from 0 because softabs(0) evaluates 0/tanh(0) = NaN). The return-convention handling (tuple with auxiliary values) is exercised by the "
     "harness in all 16 combinations; its caching semantics belongs to C09."
 )
 TECHNIQUE = (
